@@ -71,6 +71,10 @@ pub struct Sink {
     resume_after: Option<(u64, u64, u64)>,
     pub per_family: Vec<(String, u64, f64)>,
     cached: Option<(u8, Vec<usize>, H263State)>,
+    /// the case executed just before (same process, same thread): needed to replay failures that
+    /// depend on state outside the decoder object
+    prev: Option<(u8, Vec<Arc<Vec<u8>>>, Vec<u8>)>,
+    emitted: std::collections::BTreeMap<String, u64>,
 }
 
 impl Sink {
@@ -123,10 +127,18 @@ impl Sink {
         if declared_pixels(input, sorenson) > 0 || has_start_code(input) {
             self.with_header += 1;
         }
+        let prev = self.prev.take();
+        self.prev = Some((opts, hist.to_vec(), input.to_vec()));
         let replay = || -> Value {
             let mut steps: Vec<String> = hist.iter().map(|h| hex(h)).collect();
             steps.push(hex(input));
-            json!({"kind": "decode", "options": opts, "steps": steps, "note": label(), "case_id": [id.0, id.1, id.2]})
+            let preceding = prev.as_ref().map(|(o, h, i)| {
+                let mut st: Vec<String> = h.iter().map(|x| hex(x)).collect();
+                st.push(hex(i));
+                json!({"options": o, "steps": st})
+            });
+            json!({"kind": "decode", "options": opts, "steps": steps, "note": label(), "case_id": [id.0, id.1, id.2],
+                   "preceding_case_same_thread": preceding})
         };
         // Reuse the decoder of the previous case when it has the same options and history and the
         // previous input was rejected without changing the (hooked) decoder state; a failed call
@@ -156,7 +168,7 @@ impl Sink {
                     st = f;
                     outcome = decode_bytes(&mut st, input);
                     if !outcome.is_panic() {
-                        self.emit("C01/panic-only-after-rejected-inputs", &format!("{}: panicked on a decoder that had rejected other inputs before, but not on a fresh decoder with the same history", label()), replay());
+                        self.emit("C01/panic-only-after-rejected-inputs", &format!("{}: panicked on a decoder that had rejected other inputs before, but not on a fresh decoder with the same history (the preceding case is in the replay)", label()), replay());
                     }
                 }
                 Err(_) => return,
@@ -214,6 +226,11 @@ impl Sink {
     }
 
     fn emit(&mut self, sig: &str, what: &str, replay: Value) {
+        let n = self.emitted.entry(sig.to_string()).or_insert(0);
+        *n += 1;
+        if *n > 3 {
+            return; // counted; the totals are written with the statistics
+        }
         let line = json!({"sig": sig, "what": what, "replay": replay});
         let _ = writeln!(self.out, "{line}");
         let _ = self.out.flush();
@@ -276,9 +293,11 @@ pub fn worker_entry(args: &[String]) -> i32 {
         resume_after,
         per_family: vec![],
         cached: None,
+        prev: None,
+        emitted: Default::default(),
     };
     families(tier, &mut sink);
-    let line = json!({"stats": {"cases": sink.cases, "excluded_oversize": sink.excluded, "with_start_code": sink.with_header, "ok": sink.ok, "err": sink.err, "per_family": sink.per_family}});
+    let line = json!({"stats": {"cases": sink.cases, "excluded_oversize": sink.excluded, "with_start_code": sink.with_header, "ok": sink.ok, "err": sink.err, "per_family": sink.per_family, "violations_by_signature": sink.emitted}});
     let _ = writeln!(sink.out, "{line}");
     let _ = sink.out.flush();
     unsafe {
@@ -1102,6 +1121,7 @@ pub fn run(tier: Tier) -> Report {
     // merge worker outputs
     let (mut cases, mut excluded, mut with_hdr, mut ok, mut err) = (0u64, 0u64, 0u64, 0u64, 0u64);
     let mut fam: std::collections::BTreeMap<String, (u64, f64)> = Default::default();
+    let mut sig_totals: std::collections::BTreeMap<String, u64> = Default::default();
     for s in 0..nworkers {
         let p = dir.join(format!("worker-{s}.jsonl"));
         let mut saw_stats = false;
@@ -1115,6 +1135,11 @@ pub fn run(tier: Tier) -> Report {
                         with_hdr += st["with_start_code"].as_u64().unwrap_or(0);
                         ok += st["ok"].as_u64().unwrap_or(0);
                         err += st["err"].as_u64().unwrap_or(0);
+                        if let Some(m) = st["violations_by_signature"].as_object() {
+                            for (k, v) in m {
+                                *sig_totals.entry(k.clone()).or_insert(0u64) += v.as_u64().unwrap_or(0);
+                            }
+                        }
                         if let Some(pf) = st["per_family"].as_array() {
                             for e in pf {
                                 let ent = fam.entry(e[0].as_str().unwrap_or("").to_string()).or_insert((0u64, 0f64));
@@ -1131,6 +1156,18 @@ pub fn run(tier: Tier) -> Report {
         if !saw_stats {
             machinery_error = true;
             eprintln!("MACHINERY-ERROR: worker {s} did not finish");
+        }
+    }
+    // add the cases that were only counted
+    {
+        let v = rep.violations.read().unwrap();
+        for (sig, total) in &sig_totals {
+            if let Some(e) = v.get(sig) {
+                let have = e.1.load(std::sync::atomic::Ordering::Relaxed);
+                if *total > have {
+                    e.1.store(*total, std::sync::atomic::Ordering::Relaxed);
+                }
+            }
         }
     }
     let _ = std::fs::remove_dir_all(&dir);
